@@ -1,3 +1,187 @@
-/-! C11 property theorems — stub (not built yet). -/
+import TTProofs.Lemmas.C11_Assign
+import TTProofs.Lemmas.C11_Checks
+import TTModel.C11_Table
+/-!
+# C11 — cached values never go stale; a parameter update never raises
+
+The machine (`TTModel/C11_Cache.lean`) mirrors torchtree's listener registration, change
+notification and flag-guarded caches.  The class table it runs on is REGENERATED from the source on
+every run (`TTGen/C11_Wiring.lean`, translator `tr_wiring.py`); which inputs each class reads is
+`TTModel/C11_Reads.lean`.
+
+* `wellwired_no_stale` — for EVERY well-formed, well-wired machine, every initial flag assignment,
+  every finite sequence of public operations (assignment to a parameter of any kind, in-place step
+  + notification, distribution draw, operator proposal / rejection, getter calls, in any
+  interleaving): no operation raises and every getter returns the value of a fresh rebuild.
+* `torchtree_wellwired` — the generated table is well wired for every class of the anchored files
+  (and the further classes of the check's graph): `decide`.
+* `torchtree_no_stale` — the two combined for any graph instantiating those classes.
+-/
 namespace TTProps.C11
+open TT.C11
+
+variable {V : Type} [Inhabited V]
+
+/-- an operation is admissible: assignments target parameters that have a public setter (all the
+way down to plain parameters), getters are called on existing cells -/
+def PrimValid (m : Machine) : Prim V → Prop
+  | .assign j _ => j < m.nN ∧ settable m m.nN j = true
+  | .eval c => c < m.nC
+
+def OpValid (m : Machine) (op : Op V) : Prop := ∀ p ∈ op.prims, PrimValid m p
+
+/-- what holds of a run so far -/
+def Good (m : Machine) (F : Nat → List V → V) (r : Run V) : Prop :=
+  r.raised = false ∧ (∀ o ∈ r.obs, o.got = o.fresh) ∧ Inv m F r.st
+
+theorem runPrims_good (m : Machine) (hwf : WF m) (hww : WellWired m) (F : Nat → List V → V) :
+    ∀ (ps : List (Prim V)) (r : Run V), (∀ p ∈ ps, PrimValid m p) → Good m F r →
+      Good m F (runPrims m F ps r) := by
+  intro ps
+  induction ps with
+  | nil => intro r _ h; exact h
+  | cons p ps ih =>
+    intro r hv hg
+    have hp := hv p (List.mem_cons_self ..)
+    have hrest : ∀ q ∈ ps, PrimValid m q := fun q hq => hv q (List.mem_cons_of_mem _ hq)
+    obtain ⟨h1, h2, h3⟩ := hg
+    cases p with
+    | assign j v =>
+      simp only [runPrims]
+      have ha := assignF_spec m hwf hww F v m.nN j hp.1 hp.2 r.st h3
+      simp only [ha.1, Bool.false_eq_true, if_false]
+      apply ih _ hrest
+      exact ⟨h1, h2, ha.2⟩
+    | eval c =>
+      simp only [runPrims]
+      have he := evalF_spec m hwf F m.nC c hp hp true r.st h3
+      apply ih _ hrest
+      refine ⟨h1, ?_, he.2.1⟩
+      intro o ho
+      rcases List.mem_append.mp ho with ho | ho
+      · exact h2 o ho
+      · simp only [List.mem_singleton] at ho
+        subst ho
+        exact he.1
+
+theorem runOps_good (m : Machine) (hwf : WF m) (hww : WellWired m) (F : Nat → List V → V) :
+    ∀ (ops : List (Op V)) (r : Run V), (∀ op ∈ ops, OpValid m op) → Good m F r →
+      Good m F (runOps m F ops r) := by
+  intro ops
+  induction ops with
+  | nil => intro r _ h; exact h
+  | cons op ops ih =>
+    intro r hv hg
+    simp only [runOps]
+    exact ih _ (fun o ho => hv o (List.mem_cons_of_mem _ ho))
+      (runPrims_good m hwf hww F op.prims r (hv op (List.mem_cons_self ..)) hg)
+
+theorem initState_inv (m : Machine) (F : Nat → List V → V) (leaf : Nat → V) (fl0 : Flags) :
+    Inv m F (initState m F leaf fl0) := by
+  intro c _ f _ _
+  rfl
+
+/-- **wellwired_no_stale.**  In a well-formed, well-wired machine, whatever the flags after
+construction and whatever finite sequence of admissible public operations is applied, no operation
+raises, every getter call returns exactly what a freshly built copy holding the same leaf values
+returns, and the cache-coherence invariant holds at the end (so the statement extends to every
+continuation). -/
+theorem wellwired_no_stale (m : Machine) (hwf : WF m) (hww : WellWired m) (F : Nat → List V → V)
+    (leaf0 : Nat → V) (fl0 : Flags) (ops : List (Op V)) (hv : ∀ op ∈ ops, OpValid m op) :
+    (run m F ops (initState m F leaf0 fl0)).raised = false ∧
+    (∀ o ∈ (run m F ops (initState m F leaf0 fl0)).obs, o.got = o.fresh) ∧
+    Inv m F (run m F ops (initState m F leaf0 fl0)).st := by
+  exact runOps_good m hwf hww F ops _ hv
+    ⟨rfl, fun o ho => absurd ho List.not_mem_nil, initState_inv m F leaf0 fl0⟩
+
+/-- the same for a run continued from any state satisfying the invariant (histories compose) -/
+theorem wellwired_no_stale_from (m : Machine) (hwf : WF m) (hww : WellWired m) (F : Nat → List V → V)
+    (s : State V) (hs : Inv m F s) (ops : List (Op V)) (hv : ∀ op ∈ ops, OpValid m op) :
+    Good m F (run m F ops s) := by
+  exact runOps_good m hwf hww F ops _ hv ⟨rfl, fun o ho => absurd ho List.not_mem_nil, hs⟩
+
+/-- getter calls never change a leaf value: two getters called one after the other (e.g. the
+model density and the variational density after a draw, C14) see the same parameter values -/
+theorem eval_keeps_leaves (m : Machine) (hwf : WF m) (F : Nat → List V → V) (s : State V)
+    (hs : Inv m F s) (c : Nat) (hc : c < m.nC) : (evalF m F m.nC c true s).2.leaf = s.leaf :=
+  (evalF_spec m hwf F m.nC c hc hc true s hs).2.2
+
+/-- the translator recognised every handler of every class -/
+theorem translator_recognised : TTGen.C11_Wiring.translatorOk = true := by decide
+
+/-- **torchtree_wellwired.**  Every class of the anchored files (and the further classes used in the
+check's graph) is well wired in the table generated from the source: for every notification a
+cached quantity is sensitive to, the handler sets its guard flag and forwards; every input read is
+one the class registers on; no handler the class can be called on raises. -/
+theorem torchtree_wellwired :
+    ∀ e ∈ theTable, e.1.name ∈ covered → classOK e.1 e.2 = true := by
+  decide
+
+/-- no class of torchtree at all has an unrecognised handler or one that raises on a notification
+it can receive (the F06 shape), whether or not its reads are modelled -/
+theorem all_handlers_total :
+    ∀ c ∈ TTGen.C11_Wiring.classes, ∀ k ∈ [Kind.param, Kind.model],
+      (c.handler k).recognised = true ∧ (c.canReceive k = true → (c.handler k).tail ≠ .raise) := by
+  decide
+
+/-- **torchtree_no_stale.**  Any object graph built from the covered classes — as extracted from
+real objects by the harness: it passes the executable well-formedness and conformance checks —
+never returns a stale value and no parameter update raises, for all operation sequences. -/
+theorem torchtree_no_stale (m : Machine) (htab : m.table = theTable)
+    (hwfB : wfB m = true) (hconf : conformsB m = true)
+    (hcov : ∀ j < m.nN, (m.specOf j).name ∈ covered)
+    (F : Nat → List V → V) (leaf0 : Nat → V) (fl0 : Flags) (ops : List (Op V))
+    (hv : ∀ op ∈ ops, OpValid m op) :
+    (run m F ops (initState m F leaf0 fl0)).raised = false ∧
+    (∀ o ∈ (run m F ops (initState m F leaf0 fl0)).obs, o.got = o.fresh) := by
+  have hwf := wfB_sound m hwfB
+  have hcls : classesOKB m = true := by
+    unfold classesOKB
+    rw [allLt_iff]
+    intro j hj
+    have hlen : (m.nodeAt j).cls < m.table.length := by
+      unfold conformsB at hconf
+      simp only [Bool.and_eq_true, allLt_iff] at hconf
+      simpa using hconf.2 j hj
+    have hmem : m.table.getD (m.nodeAt j).cls default ∈ theTable := by
+      rw [← htab, getD_eq_getElem _ _ _ hlen]
+      exact List.getElem_mem hlen
+    exact torchtree_wellwired _ hmem (hcov j hj)
+  have hww := conforms_wellwired m hwf hconf hcls
+  have := wellwired_no_stale m hwf hww F leaf0 fl0 ops hv
+  exact ⟨this.1, this.2.1⟩
+
+/-! ### non-vacuity: a concrete graph meets every hypothesis, and the conclusion has content -/
+
+/-- `p` (plain) ← `v` (view) ; `t = Transformed(p)` ; a tree model reading `t`; a prior reading the
+tree and `v` -/
+def demo : Machine :=
+  let ix (n : String) : Nat := (theTable.map (·.1.name)).idxOf n
+  { table := theTable,
+    nodes := [
+      { cls := ix "Parameter", listeners := [1, 2], inputs := [], setter := .leaf 0 },
+      { cls := ix "ViewParameter", listeners := [4], inputs := [(0, .explicit)], setter := .view 0 0 },
+      { cls := ix "TransformedParameter", listeners := [3], inputs := [(0, .attr)], setter := .trans 0 },
+      { cls := ix "UnRootedTreeModel", listeners := [4], inputs := [(2, .attr)], setter := .none },
+      { cls := ix "ConstantCoalescentModel", listeners := [], inputs := [(1, .attr), (3, .attr)], setter := .none }],
+    cells := [
+      { owner := 0, tmpl := 0, leaf := true, guard := none, always := false, kinds := [], reads := [] },
+      { owner := 1, tmpl := 0, leaf := false, guard := none, always := false, kinds := [.param], reads := [(0, true)] },
+      { owner := 2, tmpl := 0, leaf := false, guard := some 0, always := false, kinds := [.param, .model], reads := [(0, true)] },
+      { owner := 2, tmpl := 1, leaf := false, guard := none, always := false, kinds := [.param, .model], reads := [(2, true), (0, true)] },
+      { owner := 3, tmpl := 0, leaf := false, guard := none, always := false, kinds := [.param], reads := [(2, true)] },
+      { owner := 4, tmpl := 0, leaf := false, guard := some 0, always := false, kinds := [.param, .model], reads := [(1, true), (4, true)] }] }
+
+example : demo.table = theTable ∧ wfB demo = true ∧ conformsB demo = true ∧
+    (∀ j < demo.nN, (demo.specOf j).name ∈ covered) := by
+  refine ⟨rfl, by decide, by decide, by decide⟩
+
+/-- the operations used below are admissible -/
+example : OpValid demo (Op.assign 2 (fun _ => (7 : Nat))) ∧ OpValid demo (Op.eval (V := Nat) 5) := by
+  constructor
+  · intro p hp; simp only [Op.prims, List.mem_singleton] at hp; subst hp
+    exact ⟨by decide, by decide⟩
+  · intro p hp; simp only [Op.prims, List.mem_singleton] at hp; subst hp
+    show 5 < demo.nC; decide
+
 end TTProps.C11
